@@ -118,7 +118,14 @@ def c01_generate(rng, tier):
     scns += gen_chain_debt_cases(rng, count(tier, 100, 2000))
     for s in scns:
         s["_cmp"] = ["verdict"]
-    return scns
+    # the wrappers, and the same question asked again after the graph object changed
+    api = genhist.gen_api(rng, count(tier, 150, 2000), nmax=count(tier, 6, 7))
+    for s in api:
+        s["_cmp"] = ["is_winnable"]
+    hist = genhist.gen_winnable_hist(rng, count(tier, 150, 2000))
+    for s in hist:
+        s["_cmp"] = ["verdicts"]
+    return scns + api + hist
 
 
 def ewd_strata(rec):
@@ -500,7 +507,7 @@ def c17_group_judge(recs):
 NONTRIVIAL_RULE["C17"] = "non-trivial: n>=3 with a multi-edge or cycle"
 PROPS["C17"] = {"generate": c17_generate, "group_judge": c17_group_judge, "strata": algo_strata, "nontrivial": algo_nontrivial,
                 "rule": "each mathematical input is presented three ways (vertex renaming that changes the sorted order, permuted vertex/edge/degree lists, swapped endpoints) and run under 3 (quick) / 16 (thorough) PYTHONHASHSEED values: EWD, is_winnable, q_reduction, rank, gonality, linear_equivalence; all answers must coincide with the model's single answer and with each other (reduced divisor renamed accordingly when the minimum is unique; never seed-dependent)",
-                "theorems": []}
+                "theorems": ["ewd_orders_irrelevant", "winnable_perm", "linEq_perm", "rank_perm", "gonality_perm", "qreduced_perm", "reduced_divisor_perm", "sink_perm"]}
 
 
 # ---- C10
@@ -554,7 +561,8 @@ PROPS["C10"] = {"generate": c10_generate, "judge": c10_judge,
 # ---- C11
 simple("C11", genhist.gen_orient_hist, 500, 8000,
        "orientation histories: constructor (none/partial/full/acyclic, ~7% invalid) then up to 25/80 set_orientation with all three states in both endpoint orders (incl. re-orienting and un-orienting), queries, check_fullness, reverse, divisor, canonical_divisor (~20% invalid); observables after every step: every edge state from both endpoints, in/out counters, endpoint agreement, fullness flags",
-       [], "non-trivial: >=3 operations, accepted constructor", maxops=(25, 80))
+       ["constructed_inv", "history_inv", "checkFullness_exact", "in_add_out", "divisor_degree", "reverse_in_eq_out", "divisor_add_reverse", "acyclic_unwinnable", "acyclic_divisor_unwinnable"],
+       "non-trivial: >=3 operations, accepted constructor", maxops=(25, 80))
 PROPS["C11"]["strata"] = lambda rec: hist_strata(rec) + [f"init={rec['scn'].get('_mode')}"]
 
 # ---- C20
@@ -574,4 +582,4 @@ NONTRIVIAL_RULE["C20"] = "non-trivial: a history/batch in which at least one req
 PROPS["C20"] = {"generate": c20_generate, "strata": hist_strata,
                 "nontrivial": lambda rec: "ERR" in json.dumps(rec["lean"]) or '"ok": false' in json.dumps(rec["lean"]),
                 "rule": "histories of graphs, divisors, configurations, scripts and orientations with ~40% invalid requests of every listed kind (unknown vertex, non-edge, sink in a firing set, duplicate entry, loop, non-positive amount/multiplicity, mismatched vertex sets, partial orientation where a full one is needed), mixed valid/invalid sets, placed anywhere; the digest of the target object and of the graph/divisor it refers to is compared after every request",
-                "theorems": []}
+                "theorems": ["set_fire_refused_iff", "cfg_fire_refuses_sink", "moves_refuse_unknown", "transfer_refuses_nonpositive", "divisor_refused_is_identity", "script_refused_is_identity", "graph_refused_is_identity", "orientation_refused_is_identity", "needs_full", "needs_full_refuses", "divisor_ctor_rejects", "orientation_ctor_rejects"]}
